@@ -314,6 +314,15 @@ def step (ds : DS) (op impl : String) : DS × StepOut :=
     | none => (ds, { model := "bad-op" })
   | _ => (ds, { model := "bad-op" })
 
-def run (ops impl : Array String) : IO Tally := replay ({} : DS) step ops impl
+/-- a trailing ` m` marks the same op issued through the `call!` / `call_t!` / `forward!` macros
+(`ractor/src/macros.rs`): identical semantics, so the model step is the same -/
+def stripMacro (op : String) : String :=
+  match words op with
+  | ["call", a, t, "m"] => s!"call {a} {t}"
+  | ["fcall", a, f, t, "m"] => s!"fcall {a} {f} {t}"
+  | _ => op
+
+def run (ops impl : Array String) : IO Tally :=
+  replay ({} : DS) (fun ds op im => step ds (stripMacro op) im) ops impl
 
 end Driver.C09
